@@ -1,4 +1,6 @@
 import SSVerif.Model.Hist
+import SSVerif.Model.Jsgf
+import SSVerif.Model.JsgfText
 import SSVerif.Generated.HistConsts
 import Driver.Util
 /-! driver sub-command `c01` (serves C01 and C03): reads the dump blocks of `harness/h_c01.c`
@@ -50,6 +52,9 @@ structure Blk where
   hyp : Option Bytes := none
   hypScore : Int := 0
   rsegs : Array RSeg := #[]
+  /-- the JSGF text that was installed (string, file or configuration) and the configured `toprule` -/
+  jsgfText : Option Bytes := none
+  toprule : Option Bytes := none
   bad : List String := []
 
 def splitOn20 (b : Bytes) : List Bytes :=
@@ -118,6 +123,8 @@ def feed (b : Blk) (ws : List String) : Blk :=
       let link : Option Nat := if li = -1 then none else if li < 0 then some 1000000000 else some li.toNat
       { b with ents := b.ents.push { link, frame := fr, score := sc, pred := pr, lc, rc := parseRc rc } }
     | _, _, _, _, _ => { b with bad := "E" :: b.bad }
+  | ["J", t] => { b with jsgfText := parseHex t }
+  | ["JT", t] => { b with toprule := if t = "-" then none else parseHex t }
   | ["H", w, sc] =>
     { b with hyp := if w = "null" then none else parseHex w, hypScore := (parseInt sc).getD 0 }
   | ["X", _, w, sf, ef, a, l, p] =>
@@ -164,6 +171,41 @@ def exitBranches (g : Fsg) (h : Hist) (cur : Int) (final : Bool) : String := Id.
         else i := i - 1
   if best.hist = -1 then tags := "no_exit" :: tags
   return sepBy "," tags.reverse
+
+/-! ### reference grammar from the JSGF TEXT through the Lean model of C05 (not through the library) -/
+
+open SSVerif.Jsgf SSVerif.JsgfText in
+/-- For the installed JSGF text: parse with the model's text front end, resolve names, desugar; for the rule the
+configuration names (`toprule`, looked up like `jsgf_get_rule`: `<` name `>` among the full rule names) — or,
+with no `toprule`, for every public rule — build the automaton of the rule by exploration (checked closed) and
+run the verified acceptance (final) / prefix-path (partial) decision on the reported words.
+Lines: `R jsgf <parsed> <toprule found | ->`, `R jrule <idx> <hexname> <pub> <explored> <acc hyp> <acc seg>`. -/
+def jsgfAnswer (text : Bytes) (toprule : Option Bytes) (final : Bool) (hypW segW : List Bytes) : List String :=
+  let cs := text.map fun b => Char.ofNat b.toNat
+  match parseText cs with
+  | none => ["R jsgf 0 -"]
+  | some tg =>
+    let (g, N) := resolve tg
+    let T := desugar g
+    let toB (l : List Char) : Bytes := l.map fun c => UInt8.ofNat c.toNat
+    let wordIdx (w : Bytes) : Nat := (N.words.findIdx? fun x => toB x == w).getD (N.words.length + 1)
+    let show3 (o : Option Bool) : String := match o with | none => "none" | some x => if x then "1" else "0"
+    let judge (idx : Nat) (pub : Bool) : String :=
+      let name := toHex (toB (N.rules.getD idx []))
+      match explore T.rules (.user idx) 3000 with
+      | none => s!"R jrule {idx} {name} {if pub then 1 else 0} 0 - -"
+      | some A =>
+        let dec (ws : List Bytes) : Option Bool :=
+          if final then decideAccepts A (ws.map wordIdx) else SSVerif.Hist.decidePrefix A (ws.map wordIdx)
+        s!"R jrule {idx} {name} {if pub then 1 else 0} 1 {show3 (dec hypW)} {show3 (dec segW)}"
+    match toprule with
+    | some t =>
+      let full : List Char := '<' :: ((t.map fun b => Char.ofNat b.toNat) ++ ['>'])
+      match g.find? fun rl => N.rules.getD rl.name [] == full with
+      | some rl => ["R jsgf 1 1", judge rl.name rl.pub]
+      | none => ["R jsgf 1 0"]
+    | none =>
+      "R jsgf 1 -" :: (g.filter (·.pub)).map fun rl => judge rl.name rl.pub
 
 def answer (b : Blk) : List String := Id.run do
   let shift := SSVerif.Generated.senscrShift
@@ -248,6 +290,9 @@ def answer (b : Blk) : List String := Id.run do
       out := out ++ ["R path -"]
   else
     out := out ++ ["R proj -", "R acc - -", "R path -"]
+  match b.jsgfText with
+  | some t => out := out ++ jsgfAnswer t b.toprule b.final hypW segW
+  | none => pure ()
   if !b.bad.isEmpty then out := out ++ [s!"R bad {sepBy "," b.bad}"]
   return out ++ ["R end"]
 
